@@ -216,6 +216,13 @@ var c23Programs = []string{
 	"counter c\nconst P /a\\/b/\nP {\n  c++\n}\n",
 	"counter c by k\n/^(\\w+)/ {\n  del c[$1] after 1h30m\n}\n/x/ {\n  c[\"x\"]++\n}\n",
 	"counter c by k\n/^(\\w+)/ {\n  del c[$1] after 90s\n  c[$1]++\n}\n",
+	"counter c by k\n/^(\\w+)/ {\n  del c[$1] after 1500ms\n  c[$1]++\n}\n",
+	"counter c by k\n/^(\\w+)/ {\n  del c[$1] after 2.5s\n  c[$1]++\n}\n",
+	"counter c by k\n/^(\\w+)/ {\n  del c[$1] after 500ms\n  c[$1]++\n}\n",
+	"counter c by k\n/^(\\w+)/ {\n  del c[$1] after 0.25s\n  c[$1]++\n}\n",
+	"counter c by k\n/^(\\w+)/ {\n  del c[$1] after 1h0.5s\n  c[$1]++\n}\n",
+	"counter c by k\n/^(\\w+)/ {\n  del c[$1] after 168h\n  c[$1]++\n}\n",
+	"counter c by k\n/^(\\w+)/ {\n  del c[$1] after 1m30s\n  c[$1]++\n}\n",
 	"counter c\n/x/ {\n  c++\n} else {\n  c += 2\n}\notherwise {\n  c--\n}\n",
 	"gauge g\n/^(\\d+)$/ {\n  g = -1 + $1\n}\n",
 	"gauge g\n/^(\\d+)$/ {\n  g = $1 - -1\n}\n",
@@ -458,7 +465,7 @@ func c23ExprRun(r *runCtx, id string, f []string) {
 		u := parser.Unparser{}
 		text = strings.TrimSuffix(u.Unparse(&ast.StmtList{Children: []ast.Node{e}}), "\n")
 	}()
-	toks := lexTokens(text)
+	toks := lexTokens("g = " + text)
 	prog := "gauge g\n/x/ {\n  g = " + text + "\n}\n"
 	root, perr := parser.Parse("e.mtail", strings.NewReader(prog))
 	got := "PARSE-ERROR"
